@@ -386,7 +386,10 @@ def param_list(tier):
         [("caller", ["co_val"], "fresh"), ("owner", ["co_val", "plain_none"], "fresh")],
         [("caller", ["plain_raise", "co_val"], "fresh"), ("caller", ["plain_none"], "prefetched"), ("owner", ["plain_val"], "fresh")],
     ]
+    bursts.append([("caller", ["co_val", "plain_none"], "fresh"), ("caller", ["plain_raise", "co_raise"], "fresh"), ("owner", ["plain_none", "co_val"], "fresh")])
     if tier != "quick":
+        bursts.append([("caller", ["co_val", "plain_none", "co_val"], "fresh"), ("caller", ["plain_val", "co_raise", "plain_none"], "prefetched"),
+                       ("owner", ["co_val", "plain_raise"], "fresh"), ("caller", ["plain_none", "plain_none"], "fresh")])
         bursts.append([("caller", ["co_val", "plain_none", "co_raise"], "fresh"), ("caller", ["plain_val", "co_val", "plain_none"], "fresh")])
         bursts += [[("caller", list(k), "fresh")] for k in itertools.permutations(["plain_none", "plain_raise", "co_val"], 3)]
     for b in bursts:
@@ -406,7 +409,7 @@ def line_window_params():
 
 def main(tier: str) -> int:
     rep = report.Report("C20", tier, "model_checking")
-    k = 2 if tier == "quick" else 3
+    k = 4 if tier == "quick" else 6
     st = explore.dbdfs(("mc.checks.c20", "build"), param_list(tier), k, budget_s=(60 if tier == "quick" else 1200))
     st2 = explore.dbdfs(("mc.checks.c20", "build"), line_window_params(), 0)
     for s in (st, st2):
